@@ -37,19 +37,19 @@ pub type BatchItem = Item;                            // writer.rs: `use crate::
 //@contract-file fn/writer_persist.c
 //@end
 
-//@extract src/journal/writer.rs :: Writer :: write_start props=C03+C02
+//@extract src/journal/writer.rs :: Writer :: write_start props=C03+C02+C13
 //@contract-file fn/writer_write_start.c
 //@proof after encode_into(&mut self.buf)
         proof { assert(self.buf@ =~= enc_start(item_count, seqno)); }
 //@end
 
-//@extract src/journal/writer.rs :: Writer :: write_end props=C03+C02
+//@extract src/journal/writer.rs :: Writer :: write_end props=C03+C02+C13
 //@contract-file fn/writer_write_end.c
 //@proof after encode_into(&mut self.buf)
         proof { assert(self.buf@ =~= enc_end(checksum)); }
 //@end
 
-//@extract src/journal/writer.rs :: Writer :: write_raw props=C03+C02+C09+C15+C01
+//@extract src/journal/writer.rs :: Writer :: write_raw props=C03+C02+C09+C15+C01+C13
 //@contract-file fn/writer_write_raw.c
 //@proof before hasher.update(&self.buf)
         proof {
@@ -65,7 +65,7 @@ pub type BatchItem = Item;                            // writer.rs: `use crate::
         }
 //@end
 
-//@extract src/journal/writer.rs :: Writer :: write_clear props=C03+C02+C09+C04
+//@extract src/journal/writer.rs :: Writer :: write_clear props=C03+C02+C09+C04+C13
 //@contract-file fn/writer_write_clear.c
 //@proof before hasher.update(&self.buf)
         proof { assert(self.buf@ =~= enc_clear(keyspace_id)); }
@@ -79,7 +79,7 @@ pub type BatchItem = Item;                            // writer.rs: `use crate::
         }
 //@end
 
-//@extract src/journal/writer.rs :: Writer :: write_batch props=C03+C02+C09+C15+C01 iter_param=items
+//@extract src/journal/writer.rs :: Writer :: write_batch props=C03+C02+C09+C15+C01+C13 iter_param=items
 //@contract-file fn/writer_write_batch.c
 //@loop 0
         invariant
